@@ -63,7 +63,8 @@ def write_replay(prop: str, ob: Obligation) -> tuple[str, bool, str]:
             out, rc = "replay timed out", 0
     with open(path, "a") as f:
         f.write("\n# replay output at generation time:\n" + "".join("#   " + ln + "\n" for ln in out.splitlines()))
-    return path, rc == 1, out
+    # a failing input is reproduced only when the oracle says so (a crash of the replay script is not a witness)
+    return path, (rc == 1 and "FAILING INPUT:" in out), out
 
 
 def match_known(ob: Obligation, known: dict):
